@@ -31,6 +31,7 @@ def known_match(kind, desc, obj_inv, detail):
 
 def run(rep, tier, seed, proof_broken=False):
     rng = random.Random(seed)
+    vjobs = []
     budget = BUDGET["thorough" if (tier == "thorough" or proof_broken) else "quick"]
     t_end = time.time() + budget["seconds"]
     sb, objs = valprop.build_objects(rng, n=4 if tier == "quick" else 8)
@@ -114,6 +115,10 @@ def run(rep, tier, seed, proof_broken=False):
                 nofix = kind in corrupt.STRUCTURAL and rng.random() < 0.5
                 rc2, out2, err2 = valprop.cli_validate(rbin, lab.root, name, fixity=not nofix, extra=("-l", lvl))
                 rep.count("cli-level:%s:%s" % (lvl, "error-printed" if "[E" in out2 else "nothing"))
+                # T: whether the object's result is printed at all, against the model of should_print on the library's result
+                rl = lab.validate(name, not nofix)
+                if rl[0] == "ok":
+                    vjobs.append(("script-vprint %s %d %d" % (lvl, len(rl[1]), len(rl[2]) if len(rl) > 2 else 0), ("Object " in out2), "`%s`: validate -l %s%s" % (desc, lvl, " -n" if nofix else "")))
                 if rc == 2 and (rc2 != 2 or "[E" not in out2):
                     k = known_match(kind, desc, inv, None)
                     if not k:
@@ -129,6 +134,12 @@ def run(rep, tier, seed, proof_broken=False):
         lab.close()
         sb.close()
     dis = []
+    if vjobs:
+        res = core.run_lines(core.drv_path(), [j[0] for j in vjobs])
+        for (line, printed, what), got in zip(vjobs, res):
+            rep.count("lean-vprint:" + got)
+            if got not in ("ok true", "ok false") or (got == "ok true") != printed:
+                dis.append(dict(what=what, model=got, binary_printed=printed))
     if jobs:
         res = core.run_lines(core.drv_path(), [j[0] for j in jobs])
         for (line, codes, kind, desc, needs), got in zip(jobs, res):
